@@ -268,6 +268,18 @@ def _shapes(world, r):
                     out += construct(I, s1, c, [a, IvInt("inst")], {})
                 return out
             yield ("!instance=int", bw, dec)
+
+            # ... and an address object of the other family: it also has an
+            # add_to_frame(), which writes the address bits of the frame
+            def bw2(I, st):
+                out = []
+                for (a, s1) in build_address(I, world, st, "DeviceBroadcast",
+                                             "dest"):
+                    for (i, s2) in build_address(I, world, s1, "DeviceShort",
+                                                 "inst"):
+                        out += construct(I, s2, c, [a, i], {})
+                return out
+            yield ("!instance=device-address", bw2, dec)
     elif fam == "_SpecialDeviceCommand":
         names = [k.name for k in c.mro if isinstance(k, ClassInfo)]
         if "_SpecialDeviceCommandTwoParam" in names:
